@@ -65,7 +65,7 @@ def interest_wire(t, lifetime=4000):
     if key not in _WIRES:
         # the optional fields of an Interest do not matter for the routing: they rotate with the name (HopLimit 0 is what the last hop
         # - a local forwarder handing the Interest to its application - leaves in the packet)
-        v = (len(t) * 5 + sum(len(str(x)) for x in t)) % 6
+        v = (len(t) * 5 + sum((i + 1) * ord(str(x)[-1]) for i, x in enumerate(t))) % 6
         extra = [{}, {'hop_limit': 0}, {'hop_limit': 255, 'can_be_prefix': True}, {'must_be_fresh': True}, {'hop_limit': 1, 'forwarding_hint': [['h']]},
                  {'can_be_prefix': True, 'must_be_fresh': True, 'hop_limit': 0}][v]
         _WIRES[key] = bytes(enc.make_interest(comps(t), enc.InterestParam(nonce=0x01020304, lifetime=lifetime, **extra)))
